@@ -15,7 +15,7 @@ import (
 // iteration orders of up to 3 keys: when every group reports complete, the collected SCTs come
 // from distinct logs and meet every group's minimum; no log is requested twice.
 //
-//verif:opt maxpaths=200000 permute=0 thorough.permute=2 replays=6 reach=complete,incomplete wall=600 thorough.wall=3000 thorough.maxpaths=3000000 workers=8
+//verif:opt maxpaths=200000 permute=0 thorough.permute=2 replays=6 reach=complete,incomplete wall=600 thorough.wall=6000 thorough.maxpaths=3000000 workers=8
 func Harness_C17_state() {
 	logs := []string{"g1", "g2", "n1"}
 	// Chrome-like policy: one Google group, one non-Google group, base over all logs
